@@ -93,9 +93,69 @@ pub struct TfsModel {
     /// again). Counters, document lengths and everything about documents that
     /// are not live are unchanged.
     pub lenient: bool,
+    /// Classification only: (id, token) of a LIVE document that has two or more
+    /// posting entries for the token - the current one plus stale one(s) with
+    /// another term frequency (remove with a text without the token, then
+    /// insert with a text containing it).
+    pub dups: BTreeSet<(u64, String)>,
+    /// Classification only: (id, token) with two or more stale entries of an id
+    /// that is not live (a document with duplicates removed again with a text
+    /// without the token).
+    pub multi_stale: BTreeSet<(u64, String)>,
+    /// Classification only: duplicates of which the CURRENT entry need not be
+    /// the last one of the posting list any more: an entry of another document
+    /// was removed from that list afterwards (swap_remove moves the last entry
+    /// forward), or the insert found several stale entries (its own pair may
+    /// equal one of them, then nothing is appended).
+    pub dup_order_lost: BTreeSet<(u64, String)>,
 }
 
 impl TfsModel {
+    /// classification bookkeeping for one `remove(id, text)` call; before the model is changed
+    fn note_remove(&mut self, id: u64, text_tokens: &BTreeMap<String, usize>) {
+        let live_toks: Option<BTreeMap<String, usize>> = self.docs.get(&id).map(|(_, t)| t.clone());
+        for tok in text_tokens.keys() {
+            let had_entry = live_toks.as_ref().is_some_and(|t| t.contains_key(tok)) || self.stale.contains(&(id, tok.clone()));
+            let key = (id, tok.clone());
+            self.dups.remove(&key);
+            self.multi_stale.remove(&key);
+            self.dup_order_lost.remove(&key);
+            if had_entry {
+                // the list of `tok` is re-ordered under the duplicates of other documents
+                let others: Vec<(u64, String)> = self.dups.iter().filter(|(i, t)| *i != id && t == tok).cloned().collect();
+                self.dup_order_lost.extend(others);
+            }
+        }
+        if live_toks.is_some() {
+            // duplicates that are not cleaned stay behind as several stale entries
+            let left: Vec<(u64, String)> = self.dups.iter().filter(|(i, _)| *i == id).cloned().collect();
+            for k in left {
+                self.dups.remove(&k);
+                self.multi_stale.insert(k);
+            }
+        }
+    }
+    fn note_purge(&mut self, ids: &BTreeSet<u64>) {
+        // purge sweeps every list with `retain` (order kept) and removes all entries of the ids
+        self.dups.retain(|(i, _)| !ids.contains(i));
+        self.multi_stale.retain(|(i, _)| !ids.contains(i));
+        self.dup_order_lost.retain(|(i, _)| !ids.contains(i));
+    }
+    fn note_insert(&mut self, id: u64, toks: &BTreeMap<String, usize>) {
+        for tok in toks.keys() {
+            let key = (id, tok.clone());
+            if self.stale.contains(&key) {
+                self.dups.insert(key.clone());
+                if self.multi_stale.remove(&key) {
+                    self.dup_order_lost.insert(key);
+                }
+            }
+        }
+    }
+    fn order_lost_for(&self, terms: &BTreeSet<usize>) -> bool {
+        terms.iter().any(|t| self.dup_order_lost.iter().any(|(id, tok)| tok == term_token(*t) && self.docs.contains_key(id)))
+    }
+
     fn containing(&self, token: &str) -> BTreeSet<u64> {
         self.docs
             .iter()
@@ -109,6 +169,7 @@ impl TfsModel {
         self.docs.keys().copied().collect()
     }
     fn remove_with(&mut self, id: u64, text_tokens: &BTreeMap<String, usize>) -> bool {
+        self.note_remove(id, text_tokens);
         // entries for the tokens of the supplied text are cleaned in any case
         self.stale.retain(|(i, t)| !(*i == id && text_tokens.contains_key(t)));
         self.stale_old.retain(|(i, t)| !(*i == id && text_tokens.contains_key(t)));
@@ -444,14 +505,15 @@ fn adv(idx: &Idx, qs: &str, k: usize, p: &Option<BM25Params>) -> Result<Vec<(u64
 }
 
 /// One boolean tree, one call: id set, score sanity, order.
-fn check_tree_once(idx: &Idx, m: &TfsModel, q: &Q, evals: &mut u64) -> Result<(), Fail> {
+fn check_tree_once(idx: &Idx, m: &TfsModel, q: &Q, evals: &mut u64) -> Result<Vec<(u64, f32)>, Fail> {
     let qs = q.render();
     let want = q.eval(m);
     let mut ts = BTreeSet::new();
     q.terms(&mut ts);
     let full = adv(idx, &qs, BIG_K, &None)?;
     *evals += 1;
-    check_list(&format!("advanced:{}", q.shape()), &qs, &full, &want, BIG_K, m, &ts)
+    check_list(&format!("advanced:{}", q.shape()), &qs, &full, &want, BIG_K, m, &ts)?;
+    Ok(full)
 }
 
 /// One boolean tree: full list vs the model, repeat, every k.
@@ -463,7 +525,7 @@ fn check_tree(
     p: &Option<BM25Params>,
     all_k: bool,
     evals: &mut u64,
-) -> Result<(), Fail> {
+) -> Result<Vec<(u64, f32)>, Fail> {
     let qs = q.render();
     let want = q.eval(m);
     let mut ts = BTreeSet::new();
@@ -494,11 +556,18 @@ fn check_tree(
             }
         }
     }
-    Ok(())
+    Ok(full)
 }
 
 /// Plain `search` with 1..3 words (words are OR-ed).
-fn check_search(idx: &Idx, m: &TfsModel, words: &[usize], repeat: bool, all_k: bool, evals: &mut u64) -> Result<(), Fail> {
+fn check_search(
+    idx: &Idx,
+    m: &TfsModel,
+    words: &[usize],
+    repeat: bool,
+    all_k: bool,
+    evals: &mut u64,
+) -> Result<Vec<(u64, f32)>, Fail> {
     let qs = words.iter().map(|i| TERMS[*i]).collect::<Vec<_>>().join(" ");
     let mut want = BTreeSet::new();
     for w in words {
@@ -544,7 +613,110 @@ fn check_search(idx: &Idx, m: &TfsModel, words: &[usize], repeat: bool, all_k: b
             }
         }
     }
-    Ok(())
+    Ok(full)
+}
+
+// ------------------------------------------------------ ranking differential
+//
+// An index reached by a history must rank every query exactly like a FRESH
+// index that got the model's current documents by plain inserts: same ids in
+// the same order, scores equal within a relative 1e-5. Both sides are the
+// crate's own scoring; what differs is only how the posting lists came about
+// (stale entries, duplicates of a re-inserted id, compaction, reload). N, the
+// document lengths and the average length of the two indexes are equal: the
+// light battery compares them bit-exactly with the model before.
+//
+// Not comparable (and skipped, exactly those): a query that mentions a token
+// for which a LIVE document has a posting entry left behind by a remove with
+// non-original text although its current text does not contain the token -
+// the recorded finding C11/stale-posting-of-reinserted-id; the fresh index
+// cannot have that entry.
+
+/// failure class: the ranking differs for a term of which a live document has
+/// duplicate posting entries whose order was disturbed afterwards
+pub const KIND_STALE_DUP: &str = "stale-duplicate-entry-after-list-reorder";
+pub const SIG_STALE_DUP: &str = "C11/stale-duplicate-posting-entry-decides-term-frequency-after-list-reorder";
+
+/// tokens with a stale posting entry of a live document
+fn live_stale_tokens(m: &TfsModel) -> BTreeSet<&str> {
+    m.stale
+        .iter()
+        .filter(|(id, _)| m.docs.contains_key(id))
+        .map(|(_, t)| t.as_str())
+        .collect()
+}
+
+fn mentions(terms: &BTreeSet<usize>, skip: &BTreeSet<&str>) -> bool {
+    terms.iter().any(|t| skip.contains(term_token(*t)))
+}
+
+fn fresh_index(m: &TfsModel) -> Idx {
+    let idx = BM25Index::new("vindex-fresh".to_string(), default_tokenizer(), None);
+    for (id, (t, _)) in &m.docs {
+        idx.insert(*id, TEXTS[*t as usize], 1).expect("fresh index: insert of a model document");
+    }
+    idx
+}
+
+fn same_ranking(
+    what: &str,
+    qs: &str,
+    got: &[(u64, f32)],
+    fresh: &[(u64, f32)],
+    m: &TfsModel,
+    terms: &BTreeSet<usize>,
+) -> Result<(), Fail> {
+    let close = |a: f32, b: f32| a == b || (a - b).abs() <= 1e-5 * a.abs().max(b.abs());
+    let same = got.len() == fresh.len() && got.iter().zip(fresh).all(|((i1, s1), (i2, s2))| i1 == i2 && close(*s1, *s2));
+    if same {
+        return Ok(());
+    }
+    let ids = |v: &[(u64, f32)]| v.iter().map(|(i, _)| *i).collect::<Vec<_>>();
+    let class = if m.order_lost_for(terms) {
+        KIND_STALE_DUP
+    } else if ids(got) != ids(fresh) {
+        "order"
+    } else {
+        "scores"
+    };
+    Err(Fail::new(
+        format!("{what}:ranking-differs-from-fresh-index:{class}"),
+        format!(
+            "query {qs:?}: the index ranks {got:?}, a fresh index holding the same documents {} ranks {fresh:?}",
+            show_model(m)
+        ),
+    ))
+}
+
+/// Answers of the fresh index for the fixed query list of the light battery
+/// (every term by `search`, then light_trees + multi_not_trees(false) by
+/// `try_search_advanced`). They depend on the model's documents only, so they
+/// are memoised per thread by (id, text) list.
+struct FreshLight {
+    terms: Vec<Vec<(u64, f32)>>,
+    trees: Vec<Vec<(u64, f32)>>,
+}
+
+fn fresh_light(m: &TfsModel) -> std::rc::Rc<FreshLight> {
+    use std::collections::HashMap;
+    use std::rc::Rc;
+    thread_local! {
+        static MEMO: RefCell<HashMap<Vec<(u64, u8)>, Rc<FreshLight>>> = RefCell::new(HashMap::new());
+    }
+    let key: Vec<(u64, u8)> = m.docs.iter().map(|(id, (t, _))| (*id, *t)).collect();
+    if let Some(hit) = MEMO.with(|c| c.borrow().get(&key).cloned()) {
+        return hit;
+    }
+    let f = fresh_index(m);
+    let terms = (0..TERMS.len()).map(|t| f.search(TERMS[t], BIG_K, None)).collect();
+    let trees = light_trees()
+        .into_iter()
+        .chain(multi_not_trees(false))
+        .map(|q| f.try_search_advanced(&q.render(), BIG_K, None).expect("fresh index: light tree"))
+        .collect();
+    let out = Rc::new(FreshLight { terms, trees });
+    MEMO.with(|c| c.borrow_mut().insert(key, out.clone()));
+    out
 }
 
 pub const SIG_HASH_ORDER: &str = "C11/multiword-search-score-depends-on-hash-order";
@@ -648,6 +820,7 @@ impl Sut for Tfs {
                     2
                 } else {
                     m.docs.insert(*id, (*t, toks.clone()));
+                    m.note_insert(*id, toks);
                     m.removed_with_full_text.remove(id);
                     // entries for tokens of the new text are refreshed by the insert
                     m.stale.retain(|(i, tok)| !(i == id && toks.contains_key(tok)));
@@ -699,6 +872,7 @@ impl Sut for Tfs {
                     }
                 }
                 // purge sweeps every posting list
+                m.note_purge(&set);
                 m.stale.retain(|(i, _)| !set.contains(i));
                 m.stale_old.retain(|(i, _)| !set.contains(i));
                 let got = idx.purge_ids(&set, now);
@@ -775,6 +949,7 @@ impl Sut for Tfs {
         let docs = &m.docs;
         m.stale.retain(|(id, _)| docs.contains_key(id));
         m.stale_old.retain(|(id, _)| docs.contains_key(id));
+        m.multi_stale.retain(|(id, _)| docs.contains_key(id));
     }
 
     fn lenient_for(kind: &str) -> bool {
@@ -839,29 +1014,61 @@ impl Sut for Tfs {
             ));
         }
         // every single term (exact retrieval set), one 3-word query
+        // + ranking differential: each list must be what a fresh index holding the model's documents returns
+        let fresh = fresh_light(m);
+        let skip = live_stale_tokens(m);
         for t in 0..TERMS.len() {
-            check_search(idx, m, &[t], false, false, evals)?;
+            let got = check_search(idx, m, &[t], false, false, evals)?;
+            if !skip.contains(term_token(t)) {
+                *evals += 1;
+                same_ranking("search:1w", TERMS[t], &got, &fresh.terms[t], m, &BTreeSet::from([t]))?;
+            }
         }
         check_search(idx, m, &[1, 2, 3], false, false, evals)?;
         // a handful of boolean shapes (the complete tree batteries are in the deep battery)
-        for q in light_trees().into_iter().chain(multi_not_trees(false)) {
-            check_tree_once(idx, m, &q, evals)?;
+        for (i, q) in light_trees().into_iter().chain(multi_not_trees(false)).enumerate() {
+            let got = check_tree_once(idx, m, &q, evals)?;
+            let mut ts = BTreeSet::new();
+            q.terms(&mut ts);
+            if !mentions(&ts, &skip) {
+                *evals += 1;
+                same_ranking(&format!("advanced:{}", q.shape()), &q.render(), &got, &fresh.trees[i], m, &ts)?;
+            }
         }
         Ok(())
     }
 
     fn deep_battery(idx: &Idx, _cfg: &TfsCfg, m: &TfsModel, depth: usize, evals: &mut u64) -> Result<(), Fail> {
         // plain search: every 1- and 2-word query with repeat + every k, some 3-word ones
+        // each full list additionally = the list of a fresh index holding the model's documents
+        let fresh = fresh_index(m);
+        let skip = live_stale_tokens(m);
         for a in 0..TERMS.len() {
-            check_search(idx, m, &[a], true, true, evals)?;
+            let got = check_search(idx, m, &[a], true, true, evals)?;
+            if !skip.contains(term_token(a)) {
+                *evals += 2;
+                same_ranking("search:1w", TERMS[a], &got, &fresh.search(TERMS[a], BIG_K, None), m, &BTreeSet::from([a]))?;
+            }
             for b in 0..TERMS.len() {
-                check_search(idx, m, &[a, b], true, true, evals)?;
+                let got = check_search(idx, m, &[a, b], true, true, evals)?;
+                if !skip.contains(term_token(a)) && !skip.contains(term_token(b)) {
+                    let qs = format!("{} {}", TERMS[a], TERMS[b]);
+                    *evals += 2;
+                    same_ranking("search:2w", &qs, &got, &fresh.search(&qs, BIG_K, None), m, &BTreeSet::from([a, b]))?;
+                }
             }
         }
         let t2 = q_trees(2);
         // every depth<=2 tree, default parameters, repeat + every k
         for q in &t2 {
-            check_tree(idx, m, q, "default", &None, true, evals)?;
+            let got = check_tree(idx, m, q, "default", &None, true, evals)?;
+            let mut ts = BTreeSet::new();
+            q.terms(&mut ts);
+            if !mentions(&ts, &skip) {
+                let qs = q.render();
+                *evals += 2;
+                same_ranking(&format!("advanced:{}", q.shape()), &qs, &got, &adv(&fresh, &qs, BIG_K, &None)?, m, &ts)?;
+            }
         }
         // ANDs with several negated operands in every operand order (set + order, one call each)
         for q in multi_not_trees(true) {
@@ -926,6 +1133,8 @@ impl Sut for Tfs {
     fn canonical_signature(kind: &str) -> Option<String> {
         if kind.contains("stale-posting-of-reinserted-id") {
             Some("C11/stale-posting-of-reinserted-id".to_string())
+        } else if kind.contains(KIND_STALE_DUP) {
+            Some(SIG_STALE_DUP.to_string())
         } else if kind.contains("multiword-repeat-hash-order") {
             Some(SIG_HASH_ORDER.to_string())
         } else if kind.contains(SIG_RESURRECT_KIND) && observed_after_load(kind) {
@@ -1050,4 +1259,260 @@ pub fn legacy_seeds() -> Vec<(&'static str, Vec<HOp<TfsOp>>)> {
             HOp::Do(TfsOp::Insert(3, 5)),
         ],
     )]
+}
+
+// ------------------------------------------------- large corpus (NOT guard)
+//
+// `try_search_advanced` refuses a query that would materialise the complement
+// of a NOT over more than 10 000 documents ("logical NOT complement over N
+// documents exceeds maximum 10000"); `search_advanced` turns the refusal into
+// an empty list. A NOT that only filters the positive operands of its AND
+// (`b AND NOT a`, in any operand order) materialises nothing and must be
+// answered. One index is built once to 10 000 documents, checked, and then
+// gets document 10 001.
+
+pub const NOT_GUARD_DOCS: usize = 10_000;
+
+/// Every ordered pair and a set of ordered triples over the literals
+/// {term, NOT term}: every operand order, NOT in every position; plus the
+/// nested fixed trees of the light battery.
+pub fn guard_trees() -> Vec<Q> {
+    let lit = |i: usize, neg: bool| if neg { Q::Not(Box::new(Q::T(i))) } else { Q::T(i) };
+    let mut out = Vec::new();
+    let t = TERMS.len();
+    for i in 0..t {
+        out.push(lit(i, false));
+        out.push(lit(i, true));
+    }
+    for a in 0..2 * t {
+        for b in 0..2 * t {
+            let (x, y) = (lit(a / 2, a % 2 == 1), lit(b / 2, b % 2 == 1));
+            out.push(Q::And(vec![x.clone(), y.clone()]));
+            out.push(Q::Or(vec![x, y]));
+        }
+    }
+    // three term triples (one with the never-indexed term) x 6 orders x 8 negation masks
+    for tri in [[0usize, 1, 2], [1, 3, 4], [2, 3, 0]] {
+        for perm in [[0usize, 1, 2], [0, 2, 1], [1, 0, 2], [1, 2, 0], [2, 0, 1], [2, 1, 0]] {
+            for mask in 0..8u8 {
+                let ops: Vec<Q> = (0..3).map(|p| lit(tri[perm[p]], mask & (1 << perm[p]) != 0)).collect();
+                out.push(Q::And(ops.clone()));
+                out.push(Q::Or(ops));
+            }
+        }
+    }
+    // one level down: (NOT a AND b) OR c, c AND (NOT a AND b) and the mirrored forms
+    for (a, b, c) in [(0usize, 1usize, 2usize), (3, 0, 1)] {
+        for inner in [vec![lit(a, true), lit(b, false)], vec![lit(b, false), lit(a, true)]] {
+            out.push(Q::Or(vec![Q::And(inner.clone()), lit(c, false)]));
+            out.push(Q::Or(vec![lit(c, false), Q::And(inner.clone())]));
+            out.push(Q::And(vec![Q::And(inner.clone()), lit(c, false)]));
+            out.push(Q::And(vec![lit(c, false), Q::And(inner.clone())]));
+            out.push(Q::Not(Box::new(Q::And(inner.clone()))));
+            out.push(Q::And(vec![lit(c, false), Q::Not(Box::new(Q::And(inner)))]));
+        }
+    }
+    out.extend(multi_not_trees(false));
+    out
+}
+
+impl Q {
+    /// The documented condition for a refusal, independent of operand order:
+    /// evaluating the tree needs the complement of some NOT as a set of its
+    /// own. A NOT operand of an AND that also has a positive operand is a
+    /// filter (its inside is evaluated as an ordinary query); every other NOT
+    /// - alone, under OR, or in an AND of NOTs only - is a complement.
+    fn needs_not_complement(&self) -> bool {
+        match self {
+            Q::T(_) => false,
+            Q::Not(_) => true,
+            Q::Or(xs) => xs.iter().any(|x| x.needs_not_complement()),
+            Q::And(xs) if xs.len() == 1 => xs[0].needs_not_complement(),
+            Q::And(xs) => {
+                if xs.iter().all(|x| matches!(x, Q::Not(_))) {
+                    return true;
+                }
+                xs.iter().any(|x| match x {
+                    Q::Not(inner) => inner.needs_not_complement(),
+                    other => other.needs_not_complement(),
+                })
+            }
+        }
+    }
+    /// rendering with the operands of every AND / OR sorted: equal for trees
+    /// that differ in operand order only
+    fn order_free(&self) -> String {
+        match self {
+            Q::T(i) => TERMS[*i].to_string(),
+            Q::Not(x) => format!("NOT({})", x.order_free()),
+            Q::And(xs) | Q::Or(xs) => {
+                let mut v: Vec<String> = xs.iter().map(|x| x.order_free()).collect();
+                v.sort();
+                format!("{}({})", if matches!(self, Q::And(_)) { "AND" } else { "OR" }, v.join(","))
+            }
+        }
+    }
+}
+
+pub struct LargeOut {
+    pub evaluations: u64,
+    pub trees: u64,
+    pub refused: u64,
+    pub answered: u64,
+    pub order_classes: u64,
+    /// (failure class, summary, replay)
+    pub failures: Vec<(String, String, serde_json::Value)>,
+}
+
+fn few(s: &BTreeSet<u64>) -> String {
+    let v: Vec<u64> = s.iter().take(6).copied().collect();
+    format!("{} ids, first {v:?}", s.len())
+}
+
+/// One tree on the large index. Ok(true) = refused (allowed), Ok(false) = answered correctly.
+fn check_guarded_tree(idx: &Idx, m: &TfsModel, q: &Q, evals: &mut u64) -> Result<bool, Fail> {
+    let n = m.docs.len();
+    let qs = q.render();
+    let shape = q.shape();
+    let k = n + 1;
+    let strict = idx.try_search_advanced(&qs, k, None);
+    let lax = idx.search_advanced(&qs, k, None);
+    *evals += 2;
+    let list = match strict {
+        Err(e) => {
+            let msg = format!("{e:?}");
+            if !lax.is_empty() {
+                return Err(Fail::new(
+                    format!("large:{shape}:search_advanced-answers-what-try_search_advanced-refuses"),
+                    format!("query {qs:?} over {n} documents: {msg}, search_advanced returned {} results", lax.len()),
+                ));
+            }
+            if n <= NOT_GUARD_DOCS || !msg.contains("NOT complement") {
+                return Err(Fail::new(
+                    format!("large:{shape}:error"),
+                    format!("query {qs:?} over {n} documents: {msg}"),
+                ));
+            }
+            if !q.needs_not_complement() {
+                return Err(Fail::new(
+                    format!("large:{shape}:refused-although-every-NOT-only-filters-an-AND"),
+                    format!(
+                        "query {qs:?} over {n} documents was refused ({msg}); every NOT in it is an operand of an AND with a positive \
+                         operand, no complement has to be built (the model answer has {})",
+                        few(&q.eval(m))
+                    ),
+                ));
+            }
+            return Ok(true);
+        }
+        Ok(l) => l,
+    };
+    if bits(&lax) != bits(&list) {
+        return Err(Fail::new(
+            format!("large:{shape}:search_advanced-differs-from-try_search_advanced"),
+            format!("query {qs:?} over {n} documents: {} vs {} results", lax.len(), list.len()),
+        ));
+    }
+    let want = q.eval(m);
+    let ids: BTreeSet<u64> = list.iter().map(|(i, _)| *i).collect();
+    if ids.len() != list.len() {
+        return Err(Fail::new(format!("large:{shape}:duplicate-id"), format!("query {qs:?} over {n} documents")));
+    }
+    if ids != want {
+        let missing: BTreeSet<u64> = want.difference(&ids).copied().collect();
+        let surplus: BTreeSet<u64> = ids.difference(&want).copied().collect();
+        return Err(Fail::new(
+            format!("large:{shape}:set"),
+            format!("query {qs:?} over {n} documents: missing {}, surplus {}", few(&missing), few(&surplus)),
+        ));
+    }
+    for (id, s) in &list {
+        if !s.is_finite() || *s < 0.0 {
+            return Err(Fail::new(format!("large:{shape}:score-not-finite-nonneg"), format!("query {qs:?}: doc {id} score {s}")));
+        }
+    }
+    for w in list.windows(2) {
+        let ((i1, s1), (i2, s2)) = (w[0], w[1]);
+        if !(s1 > s2 || (s1 == s2 && i1 < i2)) {
+            return Err(Fail::new(
+                format!("large:{shape}:order"),
+                format!("query {qs:?} over {n} documents: ({i1},{s1}) before ({i2},{s2})"),
+            ));
+        }
+    }
+    Ok(false)
+}
+
+/// The large-corpus phase: 10 000 documents (texts cycle through the six
+/// indexable TEXTS), every tree of `guard_trees`, then one more document and
+/// the same trees again. `only`: replay of one (documents, query) case.
+pub fn large_corpus_scenario(only: Option<(usize, String)>) -> LargeOut {
+    let mut out = LargeOut { evaluations: 0, trees: 0, refused: 0, answered: 0, order_classes: 0, failures: Vec::new() };
+    let idx = BM25Index::new("vindex-large".to_string(), default_tokenizer(), None);
+    let mut m = TfsModel::default();
+    let trees = guard_trees();
+    let mut next = 1u64;
+    for n in [NOT_GUARD_DOCS, NOT_GUARD_DOCS + 1] {
+        while m.docs.len() < n {
+            let t = ((next - 1) % 6) as u8;
+            idx.insert(next, TEXTS[t as usize], next).expect("large corpus insert");
+            m.docs.insert(next, (t, text_tokens(t).clone()));
+            next += 1;
+        }
+        out.evaluations += 1;
+        if idx.len() != n {
+            out.failures.push((
+                "large:len".into(),
+                format!("C11 hist large corpus: len {} after {n} inserts", idx.len()),
+                serde_json::json!({"scenario": "large-corpus", "docs": n}),
+            ));
+            continue;
+        }
+        // refused / answered per operand-order class
+        let mut classes: BTreeMap<String, (bool, String)> = BTreeMap::new();
+        for q in &trees {
+            let qs = q.render();
+            if let Some((docs, query)) = &only
+                && (*docs != n || *query != qs)
+            {
+                continue;
+            }
+            out.trees += 1;
+            let replay = serde_json::json!({"scenario": "large-corpus", "docs": n, "query": qs});
+            match check_guarded_tree(&idx, &m, q, &mut out.evaluations) {
+                Ok(refused) => {
+                    if refused {
+                        out.refused += 1;
+                    } else {
+                        out.answered += 1;
+                    }
+                    match classes.get(&q.order_free()) {
+                        None => {
+                            classes.insert(q.order_free(), (refused, qs));
+                        }
+                        Some((r, other)) if *r != refused => {
+                            let word = |r: bool| if r { "refused" } else { "answered" };
+                            out.failures.push((
+                                format!("large:{}:operand-order-decides-refusal", q.shape()),
+                                format!(
+                                    "C11 hist large corpus ({n} documents): {qs:?} is {} but {other:?}, the same operands in another order, is {}",
+                                    word(refused),
+                                    word(*r)
+                                ),
+                                replay,
+                            ));
+                        }
+                        Some(_) => {}
+                    }
+                }
+                Err(f) => out.failures.push((
+                    f.kind.clone(),
+                    format!("C11 hist large corpus ({n} documents, text of document i = TEXTS[(i-1) % 6]): [{}] {}", f.kind, f.detail),
+                    replay,
+                )),
+            }
+        }
+        out.order_classes += classes.len() as u64;
+    }
+    out
 }
